@@ -50,6 +50,11 @@ CHECKS["C12"] = dict(engine="relayer-batching", cat="exploration", ref="DESIGN.m
    text="Block streams in four size profiles (tiny / around half / around full incl. oversized / mixed, incompressible payloads, 0-6 rollups, all-or-subset filters) go through try_add / Full push-back / take(), with take() futures dropped un-polled; the oracle checks exactly-once, increasing heights, reported greatest height == content, per-rollup data and proofs, untouched metadata under filters, and the payload bound recomputed from the blobs.",
    note="Celestia submission and the state file are C11's subject; compressed sizes rely on incompressible random payloads")
 
+CHECKS["C10"] = dict(engine="conductor-executor", cat="exploration", ref="DESIGN.md §5 C10",
+   technique="runtime monitoring: the real conductor executor event loop on harness-owned channels, driven with exhaustive short and random long soft/firm delivery words against a real tonic ExecutionService on loopback that records every RPC; offline order / exactly-once / parent-chain / commitment oracle over the RPC log",
+   text="All delivery words of length <=4 (quick) / <=5 (thorough) over soft and firm blocks of three heights for each commit level, plus random longer words with duplicates, stale and skipped heights, sessions that start with soft ahead of firm, look-ahead 1-5 and delayed rollup responses; the oracle checks one ExecuteBlock per height in gap-free increasing order, each on the previous height's returned block, monotone commitments with firm <= soft, and firm commitments naming the block executed from the same height.",
+   note="the sequencer and Celestia reader tasks are replaced by the harness delivering into the executor's channels; quiescence between deliveries is RPC inactivity with a bounded wait; watchdog words are counted and make the run inconclusive beyond 2%")
+
 def main():
     hooks = subprocess.run(["git", "-C", "/repo", "log", "--format=%h", "--grep=^verif hooks:"], capture_output=True, text=True).stdout.split()
     m = {
@@ -68,6 +73,7 @@ def main():
        {"name": "mempool-walk", "path": "harness/seq/mempool.rs", "serves_properties": ["C13"], "kind_free_text": "in-crate test-only child module of astria_sequencer::mempool (feature verif)"},
        {"name": "composer-bundles", "path": "harness/composer/executor.rs", "serves_properties": ["C16"], "kind_free_text": "in-crate test-only child module of astria_composer::executor (feature verif)"},
        {"name": "relayer-batching", "path": "harness/relayer/write.rs", "serves_properties": ["C12"], "kind_free_text": "in-crate test-only child module of astria_sequencer_relayer::relayer::write (feature verif)"},
+       {"name": "conductor-executor", "path": "harness/conductor/executor.rs", "serves_properties": ["C10"], "kind_free_text": "in-crate test-only child module of astria_conductor::executor (feature verif)"},
        {"name": "chainsim", "path": "harness/seq/app", "serves_properties": ["C01","C02","C03","C04","C05","C06","C07","C14","C15","C18"], "kind_free_text": "in-crate multi-node ABCI driver inside astria_sequencer::app (feature verif) + offline Python oracles"},
      ],
      "checks": [],
